@@ -1,5 +1,6 @@
 """File-system fault layer: counts every mutating file-system call issued under one directory and can make the
-i-th one fail (OSError, once or sticky) or kill the process just before / after it.
+i-th one fail (OSError: once, sticky = everything from there on, or path = every later operation on that same path) or
+kill the process just before / after it.
 
 Intercepted, process-wide while installed: os.makedirs, os.mkdir, os.rename, os.replace, os.remove, os.unlink,
 os.rmdir, shutil.rmtree, shutil.move, builtins.open in a writing mode (and the write()/close() of the file
@@ -19,7 +20,7 @@ class FSFaults:
     def __init__(self, root, fail_at=None, mode="raise", err=errno.ENOSPC):
         self.root = os.path.abspath(root)
         self.fail_at = fail_at
-        self.mode = mode  # raise | sticky | die_before | die_after
+        self.mode = mode  # raise | sticky | path | die_before | die_after
         self.err = err
         self.n = 0
         self.log = []
@@ -60,9 +61,16 @@ class FSFaults:
         label = self._label(op, path)
         self.log.append(label)
         due = self.fail_at is not None and (i == self.fail_at or (self.mode == "sticky" and i > self.fail_at))
+        if self.mode == "path" and self.fail_at is not None:
+            # a file / directory that cannot be written however often it is tried (quota, bad block, permissions):
+            # every later operation on the path of operation fail_at fails too, everything else works
+            ap = os.path.abspath(os.fspath(path))
+            if i == self.fail_at:
+                self.fail_path = ap
+            due = i >= self.fail_at and ap == getattr(self, "fail_path", None)
         if due:
             self.fired.append((i, label))
-            if self.mode in ("raise", "sticky"):
+            if self.mode in ("raise", "sticky", "path"):
                 raise OSError(self.err, f"injected fault at fs op {i} ({label})", os.fspath(path))
             if self.mode == "die_before":
                 os._exit(137)
